@@ -391,6 +391,12 @@ func (l *lexer) emit(typ int) {
 	}
 	verifPoint(l, "L.emit", typ)
 	select {
+	case <-l.cancel:
+		// an error is already recorded: do not hand over another token
+		panic(bailout)
+	default:
+	}
+	select {
 	case l.token <- tok:
 	case <-l.cancel:
 		verifPoint(l, "L.bail", 0)
